@@ -180,3 +180,23 @@ def wait(n):
     """driver helper: `yield from wait(n)`"""
     for _ in range(n):
         yield
+
+
+def with_bystanders(dut, *domains):
+    """Wrap `dut` so that the named clock domains exist in the design (each drives one free-running toggle).  Used when a
+    DUT is asked to live in a non-default domain: the Bench clocks that domain, and the bystander domains get unrelated
+    clocks (Bench(clocks={...})) -- nothing in the DUT may depend on them."""
+    from amaranth import Elaboratable, Module, Signal
+
+    class _Wrapper(Elaboratable):
+        def __init__(self):
+            self.dut = dut
+            self.bystanders = {d: Signal(name="bystander_" + d) for d in domains}
+
+        def elaborate(self, platform):
+            m = Module()
+            m.submodules.dut = dut
+            for d, s in self.bystanders.items():
+                m.d[d] += s.eq(~s)
+            return m
+    return _Wrapper()
